@@ -22,6 +22,9 @@ from harness.common import rat, corpus_cases
 
 PID = 'C18'
 EXE = 'drv_c18'
+# translator tie T2 (gen/translit2.py): the local functions time_to_frames / frames_from_times of sequence_to_pianoroll
+BRIDGE = 'NoteSeqVerif.Props.C18_bridge'
+BRIDGE_THEOREMS = ['NSV.C18.t2_time_to_frames', 'NSV.C18.t2_frames_from_times']
 
 FPS = [8, 16, 31.25, 32, 50, 62.5, 100]
 EXTRA_FPS = [10, 20, 86.1328125, 44.1, 3]
@@ -68,6 +71,15 @@ def lean_rat(x):
 
 def generate(chk):
     from note_seq import sequences_lib as sl, constants
+    from harness.t2 import generate_t2
+    V = {'abs': 'rabs', 'max': 'rmax', 'min': 'rmin', 'round': 'roundHalfEven'}
+    generate_t2(chk, 'C18', [
+        dict(fn=sl.sequence_to_pianoroll, module=sl, name='time_to_frames', nested='time_to_frames', vocab=V,
+             params={'frames_per_second': 'float', 'time': 'float'}),
+        dict(fn=sl.sequence_to_pianoroll, module=sl, name='frames_from_times', nested='frames_from_times', vocab=V,
+             params={'frames_per_second': 'float', 'min_frame_occupancy_for_label': 'float', 'start_time': 'float',
+                     'end_time': 'float'}),
+    ], imports=('NoteSeqVerif.Model.C18',))
     eps = _snap_eps(sl)
     chk.translit['time_to_frames.snap_eps'] = repr(eps) if eps is not None else 'NOT FOUND (no snap in the source)'
     if eps is None:
@@ -1336,6 +1348,7 @@ def run(chk):
         'numpy semantics transcribed in the model: basic slicing with negative / out-of-range bounds, broadcasting of a '
         'list assigned to a slice, integer indexing errors, np.nonzero order, NEP-50 scalar arithmetic of float32 values',
         'CPython round() = round-half-even, sorted() stability'])
+    chk.prove_bridge([BRIDGE], [(BRIDGE, t) for t in BRIDGE_THEOREMS])
     chk.rule = ('enc: generated sequences (0-30 notes, pitches across and beyond [min_pitch,max_pitch], start/end times from '
                 'decoder-style grid k*(1/fps), k/fps, +-ulps, the edges of the 1e-9 snap window, half/fractional frames, arbitrary '
                 'doubles; fps in {8,16,31.25,32,50,62.5,100} plus a few others; both onset modes, windows, onset/offset lengths, '
